@@ -85,8 +85,9 @@ Inductive op :=
 | DeleteNode (n : N)
 | UpdateNode (n : N)
 | UpdateEdge (e : N)
-| BatchCreateEdges (l : list (N * N * bool)).   (* batch_create_edges: validate all, reserve an id block, create *)
-Inductive res := RId (i : N) | ROk | RNoNode (n : N) | RNoEdge (e : N) | RErr | RIds (l : list N).
+| BatchCreateEdges (l : list (N * N * bool))   (* batch_create_edges: validate all, reserve an id block, create *)
+| Rejected.   (* any call the engine refused with ConstraintViolation: a failed call changes nothing *)
+Inductive res := RId (i : N) | ROk | RNoNode (n : N) | RNoEdge (e : N) | RErr | RIds (l : list N) | RRejected.
 
 Definition with_ecount (s : store) (c : N) : store := ST (snodes s) (sout s) (sinl s) (sedges s) (ncount s) c.
 
@@ -123,6 +124,7 @@ Definition apply (s : store) (o : op) : store * res :=
       (ST (snodes s ++ [id]) (aset (sout s) id []) (aset (sinl s) id []) (sedges s) id (ecount s), RId id)
   | CreateEdge f t d => create_edge_op s f t d
   | BatchCreateEdges l => batch_create s l
+  | Rejected => (s, RRejected)
   | CreateEdgeId e f t d =>
       if negb (node_exists s f) then (s, RNoNode f)
       else if negb (node_exists s t) then (s, RNoNode t)
@@ -166,7 +168,10 @@ Definition neighbors (s : store) (n : N) (dir : N) : list N :=
 (* what the harness reads through the public API at a quiescent moment *)
 Record nobs := NO { o_id : N; o_out : list N; o_in : list N; o_outdeg : N; o_indeg : N;
                     o_nout : list N; o_nin : list N; o_nboth : list N }.
-Record obs := OB { ob_nodes : list N; ob_edges : list (N * erec); ob_per : list nobs }.
+(* ob_ok: count_edges/count_nodes equal the sizes of all_edges/all_nodes and get_edge(id) answers for
+   exactly the ids of all_edges, with the same record (checked by the harness for every id up to the
+   largest handed out plus one) *)
+Record obs := OB { ob_nodes : list N; ob_edges : list (N * erec); ob_per : list nobs; ob_ok : bool }.
 
 Fixpoint insert_edge (x : N * erec) (l : list (N * erec)) : list (N * erec) :=
   match l with [] => [x] | y :: r => if N.leb (fst x) (fst y) then x :: l else y :: insert_edge x r end.
@@ -174,7 +179,45 @@ Definition observe (s : store) : obs :=
   let ns := sort_N (snodes s) in
   OB ns (fold_right insert_edge [] (sedges s))
      (map (fun n => NO n (edges_of s (KOut n)) (edges_of s (KIn n)) (degree_of s (KOut n)) (degree_of s (KIn n))
-                       (neighbors s n 0) (neighbors s n 1) (neighbors s n 2)) ns).
+                       (neighbors s n 0) (neighbors s n 1) (neighbors s n 2)) ns)
+     true.
+
+(* ---- traverse(start, dir, max_depth, None, None): get_neighbor_ids_filtered over the lists, then a
+   breadth-first walk by depth; the result is compared as a sorted set (the order depends on HashSet
+   iteration) *)
+Definition trav_nbrs (s : store) (dir : N) (cur : N) : list N :=
+  let o := match get_list s (KOut cur) with Some l => l | None => [] end in
+  let i := match get_list s (KIn cur) with Some l => l | None => [] end in
+  filter (fun w => negb (N.eqb w cur))
+    ((if N.eqb dir 0 || N.eqb dir 2 then
+        flat_map (fun e => match get_edge s e with
+                           | Some r => (if N.eqb (rfrom r) cur then [rto r] else [])
+                                       ++ (if negb (rdir r) && N.eqb (rto r) cur then [rfrom r] else [])
+                           | None => [] end) o
+      else [])
+     ++
+     (if N.eqb dir 1 || N.eqb dir 2 then
+        flat_map (fun e => match get_edge s e with
+                           | Some r => (if N.eqb (rto r) cur then [rfrom r] else [])
+                                       ++ (if negb (rdir r) && N.eqb (rfrom r) cur then [rto r] else [])
+                           | None => [] end) i
+      else [])).
+Fixpoint add_new (seen : list N) (xs : list N) : list N * list N :=
+  match xs with
+  | [] => (seen, [])
+  | x :: r => if mem x seen then add_new seen r
+              else let '(s1, nw) := add_new (seen ++ [x]) r in (s1, x :: nw)
+  end.
+Fixpoint by_depth (step : N -> list N) (depth : nat) (seen frontier : list N) : list N :=
+  match depth with
+  | O => seen
+  | S d => let '(seen', nw) := add_new seen (flat_map step frontier) in
+           match nw with [] => seen' | _ => by_depth step d seen' nw end
+  end.
+Definition traverse (s : store) (start dir depth : N) : option (list N) :=
+  if node_exists s start
+  then Some (sort_N (filter (node_exists s) (by_depth (trav_nbrs s dir) (N.to_nat depth) [start] [start])))
+  else None.
 
 (* ---- interleaving semantics WITHOUT the per-key lock: the read and the write-back of an
    adjacency update are separate steps of a thread with a private register *)
